@@ -55,6 +55,8 @@ Proof. exact (fun p => conj (pol_parses_printed p) (conj (pol_display_printed p)
 Theorem C16_pol_any_case : forall s p, In (lower_string s, p) pol_from_str_table -> pol_from_str s = Some p.
 Proof. exact pol_parses_any_case. Qed.
 
+(* try_as_spdc_steps is SPDCConfig::try_as_spdc after the optional up-front wavelength validation (Props/C17.v: C17_entry):
+   try_as_spdc V c = try_as_spdc_steps c whenever the check does not fire. *)
 (* ================================================================================================ round trip *)
 (* the generated setup -> configuration conversion IS the unit table *)
 Theorem C16_as_config_is_unit_table : forall U s, as_config R_ops U s = as_config_spec U s.
@@ -92,13 +94,13 @@ Proof. exact (fun x => conj (round4_idempotent x) (round4_err x)). Qed.
 (* converting the exported configuration again reproduces it exactly (all oracles), for setups whose exported angles are
    not at the wrap-around of their range (there 360.0000 re-imports as 0; Findings/C16_wrap.v) *)
 Theorem C16_stable : forall U K minpos s, reimportable U s ->
-  exists s2, try_as_spdc R_ops U K minpos (as_config R_ops U s) = Ok (s2, []) /\
+  exists s2, try_as_spdc_steps R_ops U K minpos (as_config R_ops U s) = Ok (s2, []) /\
              as_config R_ops U s2 = as_config R_ops U s.
 Proof. exact stable. Qed.
 
 (* ================================================================================================ auto = explicit *)
 Theorem C16_auto_is_explicit : forall num (o : NumOps num) U K minpos (c : spdc_cfg num) s nf,
-  try_as_spdc o U K minpos c = Ok (s, nf) ->
+  try_as_spdc_steps o U K minpos c = Ok (s, nf) ->
   (cc_theta_deg (c_crystal c) = Auto ->
      optimum_theta o K (cfg_cs0 o c) (s_signal s) (s_pump s) = Ok (cs_theta (s_crystal s)) /\
      s_crystal s = set_crystal_theta (cfg_cs0 o c) (cs_theta (s_crystal s))) /\
@@ -134,7 +136,7 @@ Proof.
 Qed.
 
 Theorem C16_omitted_threshold : forall num (o : NumOps num) U K minpos (c : spdc_cfg num) s nf,
-  pc_threshold (c_pump c) = None -> try_as_spdc o U K minpos c = Ok (s, nf) -> s_threshold s = nQ o spec_spectrum_threshold.
+  pc_threshold (c_pump c) = None -> try_as_spdc_steps o U K minpos c = Ok (s, nf) -> s_threshold s = nQ o spec_spectrum_threshold.
 Proof. exact omitted_threshold_is_default. Qed.
 
 (* ---- non-vacuity *)
